@@ -162,6 +162,10 @@ static void barrier_and_check(const char *what)
 	orc_cb_final_check(what);
 }
 
+static void do_fork(void);
+static int nested_fork, generation;
+static struct cds_lfht *table2;
+
 static void child_main(void)
 {
 	in_child = 1;
@@ -171,6 +175,13 @@ static void child_main(void)
 	sync_checked(50, "synchronize_rcu() in the forked child");
 	do_call(50, 1);
 	do_call(50, 0);
+	if (nested_fork && generation == 1) {
+		/* the child forks in turn, while the worker it re-created may be busy with a lazy resize */
+		usim_set_op("%s: fills a table, then forks again", child_tag);
+		exercise_table(&table2);
+		do_fork();
+		usim_probe("fork.second_generation_fork_done");
+	}
 	usim_set_op("%s: rcu_barrier", child_tag);
 	barrier_and_check("in the forked child after rcu_barrier()");
 	usim_set_op("%s: hash table", child_tag);
@@ -184,7 +195,10 @@ static void do_fork(void)
 {
 	pid_t pid;
 
-	usim_set_op("fork");
+	if (in_child)
+		usim_set_op("%s: fork", child_tag);
+	else
+		usim_set_op("fork");
 	/*
 	 * Handler order: helpers are paused first (they may need the bp locks to
 	 * get there), then the bp locks are taken; released in reverse order.
@@ -198,6 +212,7 @@ static void do_fork(void)
 	pid = fork();
 	if (pid == 0) {
 		in_child = 1;
+		generation++;
 		orc_forget_open_sections();	/* the other threads do not exist here */
 		orc_cb_forked_child();
 		if (in_flight_now()) {
@@ -381,6 +396,7 @@ void scen_fork(void)
 		sig_after[1] = 1 + (int) rnd(4000);
 		usim_signal_handler(10, fork_sig_handler);
 	}
+	nested_fork = (int) usim_param("nested_fork", rnd(3) == 0);
 	with_owner = (int) usim_param("helper_owner", rnd(3) == 0);
 	owner_pauses = (int) rnd(12);
 	reader_calls = (int) usim_param("reader_calls", nreaders && rnd(2));
